@@ -262,7 +262,7 @@ impl Prop for C10Prop {
         }
     }
     fn rule(&self) -> String {
-        "graphs of all 8 kinds, n <= 40, biased to nested strongly connected components (cycles sharing nodes, cycles of cycles, DAG + back edges), long cycles, many small components, isolated nodes, self-loops, parallel edges; each graph analysed under 8 (quick) / 16 (thorough) hash keyings (the SCC routine's visit order follows HashSet iteration): connected / weakly / strongly connected components are set partitions equal to the classes of the Warshall closure, number_of_connected_components, node_connected_component(x) for every x, breadth_first_search(x) for every x, bfs_equal_size_partitions(k) for k in {1,2,3,n,n+1,random}, WrongMethod on the other kind. evaluations = graphs; each is run under every keying. distinct_nontrivial = distinct graphs with >= 2 edges; one case in 1000 is a dense graph (1-3 blocks, 60-300 nodes) with 2 100 - 12 500 stored edges under a pool of 2-16 workers (strategy thresholds); one case in 1000 has 4 150 - 4 600 nodes with one or two hubs adjacent to more than 4 096 of them (3 keyings; closure by search; per-node queries from the nodes of highest and lowest degree, nodes not adjacent to a hub, and 14 seeded others)".into()
+        "graphs of all 8 kinds, n <= 40, biased to nested strongly connected components (cycles sharing nodes, cycles of cycles, DAG + back edges), long cycles, many small components, isolated nodes, self-loops, parallel edges; each graph analysed under 8 (quick) / 16 (thorough) hash keyings (the SCC routine's visit order follows HashSet iteration): connected / weakly / strongly connected components are set partitions equal to the classes of the Warshall closure, number_of_connected_components, node_connected_component(x) for every x, breadth_first_search(x) for every x, bfs_equal_size_partitions(k) for k in {1,2,3,n,n+1,random}, WrongMethod on the other kind. evaluations = graphs; each is run under every keying. distinct_nontrivial = distinct graphs with >= 2 edges; one case in 1000 is a dense graph (1-3 blocks, 60-300 nodes) with 2 100 - 12 500 stored edges under a pool of 2-16 workers (strategy thresholds); one case in 1000 has 4 150 - 4 600 nodes with one or two hubs adjacent to more than 4 096 of them (3 keyings; closure by search; per-node queries from the nodes of highest and lowest degree, nodes not adjacent to a hub, and 14 seeded others); in a third of the cases a battery of valid unjudged calls runs first on a sibling graph (same names and edges, other node order), in a fifth the graph is queried on the same object before its last one to three operations are applied (DESIGN.md 0.2)".into()
     }
     fn assumptions(&self) -> Vec<String> {
         vec!["bfs_equal_size_partitions: only k parts, exact cover and size <= floor(n/k)+1 are required".into()]
